@@ -178,31 +178,35 @@ func (o *Node) setNotFound(path Path, n *Node, desc *proto.TypeDescriptor, isPac
 	return nil
 }
 
-func (self *Node) replaceMany(ps *pnSlice) error {
-	var buf []byte
-	// Sort pathes by original value address
+// replaceMany replaces the nodes ps.a, which lie in self's buffer, with the nodes ps.b.
+// A node of ps.a that has no address is new: its counterpart is inserted at the position insertAt of self's buffer,
+// which must not be in front of any node to replace
+func (self *Node) replaceMany(ps *pnSlice, insertAt int) error {
+	// Sort pathes by original value address, the new ones follow
 	ps.Sort()
 
 	// sequentially set new values into buffer according to sorted pathes
-	buf = make([]byte, 0, self.l)
+	src := self.raw()
+	buf := make([]byte, 0, self.l)
 	offset := int(0)
 	for i := 0; i < len(ps.a); i++ {
-		// copy (a[i-1]tail, a[i]head) into buffer
-		if offset < self.l {
-			lastp := rt.AddPtr(self.v, uintptr(offset))
-			lastLen := rt.PtrOffset(uintptr(ps.a[i].Node.v), uintptr(lastp))
-			buf = append(buf, rt.BytesFrom(lastp, lastLen, lastLen)...)
+		start, end := insertAt, insertAt
+		if a := ps.a[i].Node; a.v != nil {
+			start = rt.PtrOffset(uintptr(a.v), uintptr(self.v))
+			end = start + a.l
 		}
+		if start < offset || end > len(src) {
+			return wrapError(meta.ErrInvalidParam, "replaceMany: the nodes to replace overlap or lie outside of the buffer", nil)
+		}
+		// copy (a[i-1]tail, a[i]head) into buffer
+		buf = append(buf, src[offset:start]...)
 		// copy new value's buffer into buffer
 		buf = append(buf, ps.b[i].Node.raw()...)
 		// update last index
-		offset = rt.PtrOffset(ps.a[i].offset(), uintptr(self.v))
+		offset = end
 	}
-	if offset < self.l {
-		// copy last slice from original buffer
-		l := self.l - offset
-		buf = append(buf, rt.BytesFrom(rt.AddPtr(self.v, uintptr(offset)), l, l)...)
-	}
+	// copy last slice from original buffer
+	buf = append(buf, src[offset:]...)
 
 	self.v = rt.GetBytePtr(buf)
 	self.l = int(len(buf))
